@@ -11,7 +11,7 @@ from harness.props import sched_common as sc
 ID = 'C07'
 PROPS_FILE = 'Props/Props_C07.v'
 EXTRA_TARGETS = ['Sched/Case.vo']
-CONST_PARTS = ('sched',)
+CONST_PARTS = ('sched', 'srcpass')
 FAIL = sc.BITS['c07']
 # C07's theorems speak about dates, estimates and spent values, not about usage rows
 MISMATCH = sc.BITS['model_oracle'] | sc.BITS['dates']
